@@ -1,107 +1,2 @@
-import FmtModel.Assets
-/-
-  C18 — the asset-defined formatters agree with the classic ones.
-
-  `C18_serial_render`   : for every shared Serial directive (%n %p %b %c %u) and EVERY natural number the two
-                          implementations render the same text (same rendering functions, same padding widths
-                          in the regenerated configuration).
-  `C18_datetime_render` : for every shared Datetime directive (%n %Y %m %d %H %M %S) and EVERY instant the two
-                          render the same text (the classic table's strftime pattern for the directive is the
-                          asset's).
-  `C18_serial_patterns` : the patterns of %n %p %c %u are identical in the two regenerated tables and both
-                          engines use the same anchors and tokenisers, so formats over these directives compile to
-                          the same pattern (`C18_same_compiled` evaluates this on concrete formats); %b is an 8-bit
-                          field in the asset table and unbounded in the classic one.
-  `C18_parse_instances` : kernel-evaluated: strings both accept are read as the same value, strict and non-strict;
-                          strings with contradictory statements are rejected by both in strict mode.
-  The statement for all strings and formats, arithmetic and ordering is decided by the sweep and the
-  correspondence (aserial.*, adatetime.* ops).
--/
-namespace C18
-open Py Engine
-
-def sharedSerial : List Str := ["%n", "%p", "%b", "%c", "%u"].map String.toList
-def sharedDatetime : List Str := ["%n", "%Y", "%m", "%d", "%H", "%M", "%S"].map String.toList
-
-theorem C18_serial_config :
-    Gen.asset_serial_max_padding = Gen.serial_max_padding ∧ Gen.asset_serial_max_binary = Gen.serial_max_binary := by decide
-
-theorem serial_shared_present : ∀ k ∈ sharedSerial, (Gen.asset_serial_rows.any fun r => r.1 == k) = true := by decide
-
-/-- **Serial renderings agree for every number** -/
-theorem C18_serial_render (k : Str) (hk : k ∈ sharedSerial) (n : Nat) : Assets.renderSerial k n = Serial.cls.render k n := by
-  unfold Assets.renderSerial
-  rw [serial_shared_present k hk, C18_serial_config.1, C18_serial_config.2]
-  rfl
-
-theorem datetime_shared_table : ∀ k ∈ sharedDatetime,
-    (Gen.datetime_renderers.find? fun r => r.1 == k).map (fun r => (r.2.1, r.2.2)) = (Assets.datetimeFmtOf k).map (fun f => (false, f))
-    ∧ (Assets.datetimeFmtOf k).isSome = true := by decide
-
-/-- **Datetime renderings agree for every instant** -/
-theorem C18_datetime_render (k : Str) (hk : k ∈ sharedDatetime) (t : Cal.DT) : Assets.renderDatetime k t = Datetime.cls.render k t := by
-  obtain ⟨h1, h2⟩ := datetime_shared_table k hk
-  show Assets.renderDatetime k t = Datetime.render k t
-  unfold Assets.renderDatetime Datetime.render
-  cases hf : Assets.datetimeFmtOf k with
-  | none => simp [hf] at h2
-  | some f =>
-    cases hr : Gen.datetime_renderers.find? fun r => r.1 == k with
-    | none => simp [hf, hr] at h1
-    | some r =>
-      obtain ⟨rk, strip, rf⟩ := r
-      simp only [hf, hr, Option.map_some, Option.some.injEq, Prod.mk.injEq] at h1
-      obtain ⟨e1, e2⟩ := h1
-      subst e1; subst e2
-      simp
-
-/-- the patterns of %n %p %c %u are the same text in both regenerated tables; anchors agree -/
-theorem C18_serial_patterns :
-    (∀ k ∈ ["%n", "%p", "%c", "%u"].map String.toList,
-      (match Assets.regexTable Gen.asset_serial_rows, Engine.regexTable Gen.serial_formatter with
-       | .ok a, .ok c => decide (alookup k a = alookup k c ∧ (alookup k a).isSome = true)
-       | _, _ => false) = true)
-  ∧ Gen.asset_anchor_pre = Gen.parse_anchor_pre ∧ Gen.asset_anchor_post = Gen.parse_anchor_post := by decide +kernel
-
-/-- both engines render with the same single left-to-right tokeniser -/
-theorem C18_format_tokeniser :
-    Gen.asset_format_token_re = Gen.format_token_re ∧ Gen.asset_format_single_pass = true ∧ Gen.format_single_pass = true := by decide
-
-def sameCompiled (fmt : String) : Bool :=
-  match (do let t ← Assets.regexTable Gen.asset_serial_rows; genFormat t fmt.toList [] []),
-        (do let t ← Engine.regexTable Gen.serial_formatter; genFormat t fmt.toList [] []) with
-  | .ok a, .ok c => a == c
-  | _, _ => false
-
-theorem C18_same_compiled : ∀ f ∈ ["%n", "%p-%n", "%c/%u", "%n %n", "%u__%p__%c", "%%%n%%", "x%ny"], sameCompiled f = true := by
-  decide +kernel
-
-def serialBoth (text fmt : String) (strict : Bool) : R Nat × R Nat :=
-  (Assets.parseSerial text.toList (some fmt.toList) strict,
-   do let o ← Engine.parse Serial.cls text.toList (some fmt.toList) strict; Serial.value o)
-
-def datetimeBoth (text fmt : String) (strict : Bool) : R Cal.DT × R Cal.DT :=
-  (Assets.parseDatetime text.toList (some fmt.toList) strict,
-   do let o ← Engine.parse Datetime.cls text.toList (some fmt.toList) strict; Datetime.value o)
-
-def agreeOn {α} [DecidableEq α] (p : R α × R α) (v : α) : Bool := decide (p.1 = .ok v) && decide (p.2 = .ok v)
-def bothReject {α} (p : R α × R α) : Bool :=
-  (match p.1 with | .error .fmtValue => true | _ => false) && (match p.2 with | .error .fmtValue => true | _ => false)
-
-theorem C18_parse_instances :
-    (∀ strict ∈ [false, true],
-        agreeOn (serialBoth "007" "%n" strict) 7 = true
-      ∧ agreeOn (serialBoth "007/00000111/7" "%p/%b/%c" strict) 7 = true
-      ∧ agreeOn (serialBoth "1,234_1_234" "%c_%u" strict) 1234 = true
-      ∧ bothReject (serialBoth "12-13" "%n-%n" strict) = true
-      ∧ agreeOn (datetimeBoth "2024-02-29 23:59:59" "%Y-%m-%d %H:%M:%S" strict)
-          { year := 2024, month := 2, day := 29, hour := 23, minute := 59, second := 59 } = true
-      ∧ agreeOn (datetimeBoth "20240229_235959" "%n" strict)
-          { year := 2024, month := 2, day := 29, hour := 23, minute := 59, second := 59 } = true
-      ∧ agreeOn (datetimeBoth "59:59 12/31" "%M:%S %m/%d" strict) { year := 1900, month := 12, day := 31, minute := 59, second := 59 } = true
-      ∧ bothReject (datetimeBoth "2023-02-29" "%Y-%m-%d" strict) = true
-      ∧ bothReject (datetimeBoth "24" "%H" strict) = true)
-  ∧ agreeOn (serialBoth "12 13" "%n %c" false) 12 = true ∧ bothReject (serialBoth "12 13" "%n %c" true) = true := by
-  decide +kernel
-
-end C18
+import FmtModel.Props.C18g
+import FmtModel.Props.C18p
